@@ -398,6 +398,7 @@ func registerIntrinsics(e *Engine) {
 	registerBytealg(e)
 	registerSpecModel(e)
 	registerCloneModels(e)
+	registerStrconvModels(e)
 }
 
 // ---------------------------------------------------------------------------
@@ -703,6 +704,47 @@ func registerLibModels(e *Engine) {
 	// pretty-printed JSON text is never inspected by the planners: arbitrary (here empty) bytes
 	always("encoding/json.MarshalIndent", func(x *Exec, a []Value) Value {
 		return TupleVal{&SliceVal{A: &ArrayObj{}, Len: 0, Cap: 0}, nilIface}
+	})
+	// json.Marshal of a concrete scalar (strings, numbers, booleans): the real function is called
+	always("encoding/json.Marshal", func(x *Exec, a []Value) Value {
+		iv := a[0].(*IfaceVal)
+		var nat interface{}
+		if iv.T != nil {
+			switch t := iv.V.(type) {
+			case *StrVal:
+				if !t.IsConcrete() {
+					panic(unsupported("json.Marshal of symbolic string"))
+				}
+				nat = t.Conc()
+			case *Term:
+				if !t.IsConst() {
+					panic(unsupported("json.Marshal of symbolic scalar"))
+				}
+				switch t.S.K {
+				case KBool:
+					nat = t.Val == 1
+				case KBV:
+					if isSigned(iv.T) {
+						nat = signExt(t.Val, t.S.W)
+					} else {
+						nat = t.Val
+					}
+				default:
+					nat = t.fval()
+				}
+			default:
+				panic(unsupported("json.Marshal of " + iv.T.String()))
+			}
+		}
+		b, err := json.Marshal(nat)
+		if err != nil {
+			return TupleVal{&SliceVal{Nil: true}, x.errorValue(err.Error())}
+		}
+		vs := make([]Value, len(b))
+		for i, c := range b {
+			vs[i] = mkBV(8, uint64(c))
+		}
+		return TupleVal{mkSlice(vs), nilIface}
 	})
 	always("encoding/gob.Register", func(x *Exec, a []Value) Value { return nil })
 	always("github.com/go-openapi/swag.IsZero", func(x *Exec, a []Value) Value {
